@@ -54,7 +54,9 @@ ValidEnc(e) == e.op = "ByEntropy" /\ EntLenOK(e.ent_len) /\ IsSupported(e.lang)
 ------------------------------------------------------------------------------
 \* One predicate per property.  Each is TRUE on events it does not speak about.
 
-Inv_C01(e) == ValidEnc(e) => NoCrash(e) /\ e.err.nil /\ e.out = Mnemonic(e.ent, e.lang)
+Inv_C01(e) == /\ (ValidEnc(e) => NoCrash(e) /\ e.err.nil /\ e.out = Mnemonic(e.ent, e.lang))
+              \* ... and stays that sentence: the harness re-inspects retained results after later calls
+              /\ (e.op = "Recheck" /\ e.kind = "string" => e.same)
 
 Inv_C05(e) == ValidEnc(e) =>
     LET toks == Tokens(e.out) IN
